@@ -90,7 +90,7 @@ def run(ctx):
             return isinstance(a, tuple) and a[0] == 'cast' and 'sign_corrections' in show(a, maxdepth=6)
         ring = algebra.Ring(unit_square=unit_square)
         for bi, t in disc:
-            T = ic.op_term(t['args'][0], (bi, None))
+            T = util.peval(prog, ic.op_term(t['args'][0], (bi, None)))       # a helper computing the corrected angle is written out
             # the joint vector being tested: any idx(X, 4) atom inside T
             js = mir.subterms(T, lambda x: x[0] == 'idx' and util.const_val(x[2]) == 4 and 'sign_corrections' not in show(x, maxdepth=5) and 'offsets' not in show(x, maxdepth=5))
             ok = False
